@@ -144,6 +144,14 @@ Proof.
 Qed.
 Print Assumptions C04_UDQ_SE3.
 
+(* UnitDualQuaternion * point is the rigid motion p -> R p + t (it returned R p before /repo commit 0a28e8d) *)
+Theorem C04_UDQ_action : forall (r : V4 R) (t p : V3 R), qnormsq Rops r = 1 ->
+  tr_UDQ_act Rops (udq_rt r t) p = vadd3 Rops (mv33 Rops (q2r_ref Rops r) p) t.
+Proof.
+  intros r t p H. unfold udq_rt, dq_make. gen_unfold. sqrt_one. tuple_eq ltac:(unit_eq).
+Qed.
+Print Assumptions C04_UDQ_action.
+
 (* product of unit dual quaternions = composition of the rigid motions: (r1,t1)(r2,t2) = (r1 r2, t1 + R1 t2) *)
 Theorem C04_UDQ_mul_hom : forall (r1 r2 : V4 R) (t1 t2 : V3 R), qnormsq Rops r1 = 1 -> qnormsq Rops r2 = 1 ->
   tr_UDQ_mul Rops (udq_rt r1 t1) (udq_rt r2 t2) =
